@@ -450,6 +450,23 @@ func c10Gen() *rapid.Generator[c10Case] {
 			if rapid.Bool().Draw(t, "extra") {
 				c.Pre = append(c.Pre, ops.FSEntry{Path: f[0].Name + "/~x", Kind: "d"})
 			}
+			if rapid.IntRange(0, 2).Draw(t, "symlinks") == 0 && len(c.Pre) > 1 {
+				// some entries are symbolic links (to a directory elsewhere, to a file, dangling): whatever verify makes of
+				// them, both modes must make the same of them
+				n := rapid.IntRange(1, 2).Draw(t, "nlinks")
+				for i := 0; i < n; i++ {
+					at := rapid.IntRange(1, len(c.Pre)-1).Draw(t, "linkAt")
+					target := rapid.SampledFrom([]string{"/nowhere", ".", "..", "~x"}).Draw(t, "linkTo")
+					p := c.Pre[at].Path
+					var kept []ops.FSEntry
+					for _, e := range c.Pre {
+						if e.Path != p && !strings.HasPrefix(e.Path, p+"/") {
+							kept = append(kept, e)
+						}
+					}
+					c.Pre = append(kept, ops.FSEntry{Path: p, Kind: "l", Data: target})
+				}
+			}
 		}
 		if op == "mkdir" && rapid.IntRange(0, 5).Draw(t, "preroot") == 0 {
 			c.Pre = []ops.FSEntry{{Path: f[rapid.IntRange(0, len(f)-1).Draw(t, "which")].Name, Kind: "d"}}
